@@ -191,6 +191,30 @@ def r29(ctx: Ctx) -> RuleReport:
             rep.add(f'{ir.fq}: appends -of exactly when the role is not inverted', ir.loc(add),
                     'ok' if d2 is None else ('violation' if known else 'undecided'),
                     bn.show(ca) if d2 is None else f'appends when {bn.show(ca)}; differs from `not inverted` for {d2}')
+    # shipped subclasses: a sibling predicate that is overridden must still agree with the ones it inherits
+    base = repo.cls(M, 'Model')
+    for sub in repo.subclasses(base):
+        for name, fn in sorted(sub.methods.items()):
+            if name not in ('is_role_inverted', 'invert_role', 'has_role', '_has_role', 'invert'):
+                continue
+            key = f'{fn.fq}: overrides a predicate that Model.{"invert_role" if name != "invert_role" else "is_role_inverted"} relies on'
+            if name == 'is_role_inverted':
+                try:
+                    f2 = bool_function_formula(ctx, fn, canon=_canon(fn.positional[1]))
+                except AnalysisError as exc:
+                    rep.undecided(key, fn.loc(), str(exc))
+                    continue
+                d3 = bn.equivalent(f2, inverted)
+                if d3 is None:
+                    rep.ok(key, fn.loc(), bn.show(f2))
+                elif set(bn.atoms_of(f2)) <= {HAS[1], ENDS[1]}:
+                    rep.violation(key, fn.loc(), f'{sub.name}.is_role_inverted is `{bn.show(f2)}` while the invert_role it inherits strips -of exactly when '
+                                  f'`{bn.show(inverted)}` (differs for {d3}): under this model inverting a role no longer flips is_role_inverted, and '
+                                  f'sort keys / deinversion built on it disagree with invert_role')
+                else:
+                    rep.undecided(key, fn.loc(), bn.show(f2))
+            else:
+                rep.undecided(key, fn.loc(), 'an override of this method is not analysed')
     # deinvert
     de = repo.func(M, 'Model.deinvert')
     tp = de.positional[1]
@@ -333,6 +357,39 @@ def r40(ctx: Ctx) -> RuleReport:
         rep.add(f'{fi.fq}: "invalid role" is recorded for the triple exactly when has_role fails', fi.loc(loop), 'ok' if good else 'undecided')
     else:
         rep.undecided(f'{fi.fq}: one role test per triple', fi.loc(loop), f'{len(tests)} has_role conditions in the loop')
+    # the map tested by `graph.top not in <map>` is keyed by the sources of the triples only
+    for n in walk_local(fi.node):
+        if isinstance(n, ast.Compare) and len(n.ops) == 1 and isinstance(n.ops[0], (ast.In, ast.NotIn)) and norm(n.left) == f'{gp}.top' \
+                and isinstance(n.comparators[0], ast.Name):
+            mp = n.comparators[0].id
+            key = f'{fi.fq}: `{norm(n)}` tests the top against the sources of the triples'
+            feeds = []
+            for x in walk_local(fi.node):
+                if isinstance(x, (ast.Assign, ast.AnnAssign)) and x.value is not None:
+                    tg = x.targets[0] if isinstance(x, ast.Assign) else x.target
+                    if norm(tg) == mp:
+                        for y in ast.walk(x.value):
+                            if isinstance(y, ast.Call) and isinstance(y.func, ast.Attribute) and y.func.attr == 'variables':
+                                feeds.append(('bad', x, norm(x.value)[:60]))
+                        if isinstance(x.value, ast.Dict) and not x.value.keys or (isinstance(x.value, ast.Call) and norm(x.value.func) in ('dict', 'defaultdict')):
+                            feeds.append(('empty', x, norm(x.value)[:40]))
+                        elif not any(f[1] is x for f in feeds):
+                            feeds.append(('unknown', x, norm(x.value)[:60]))
+                    if isinstance(tg, ast.Subscript) and norm(tg.value) == mp:
+                        k = norm(tg.slice)
+                        feeds.append(('source' if any(k == r0 for r0 in _slot0_names(loop, tv)) else 'unknown', x, f'{mp}[{k}]'))
+                if isinstance(x, ast.Call) and isinstance(x.func, ast.Attribute) and x.func.attr == 'setdefault' and norm(x.func.value) == mp and x.args:
+                    k = norm(x.args[0])
+                    feeds.append(('source' if any(k == r0 for r0 in _slot0_names(loop, tv)) else 'unknown', x, f'{mp}.setdefault({k}, ...)'))
+            bad = [f for f in feeds if f[0] == 'bad']
+            if bad:
+                rep.violation(key, fi.loc(bad[0][1]), f'`{mp}` is seeded from `{bad[0][2]}`; Graph.variables() contains an explicitly set top even when no triple '
+                              f'has it as its source, so `{norm(n)}` can never report "top is not a variable in the graph" and every triple is '
+                              f'reported unreachable instead')
+            elif feeds and all(f[0] in ('source', 'empty') for f in feeds) and any(f[0] == 'source' for f in feeds):
+                rep.ok(key, fi.loc(n), '; '.join(f[2] for f in feeds))
+            else:
+                rep.undecided(key, fi.loc(n), '; '.join(f'{f[0]}: {f[2]}' for f in feeds)[:160])
     reach = [f for f in local_callees(ctx, fi, depth=3) if f.module.name == M]
     apps2 = []
     for f in reach:
@@ -371,6 +428,19 @@ def r40(ctx: Ctx) -> RuleReport:
                 'the target of every triple becomes a neighbour, constants included: two components that merely share a constant '
                 '(the same concept, the same attribute value) count as connected and "unreachable" is not reported' if bad else '')
     return rep
+
+
+def _slot0_names(loop: ast.For, tv):
+    out = set()
+    if tv:
+        out.add(f'{tv}[0]')
+    for n in ast.walk(loop):
+        if isinstance(n, ast.Assign) and isinstance(n.targets[0], ast.Tuple) and len(n.targets[0].elts) == 3 \
+                and isinstance(n.value, ast.Name) and n.value.id == tv:
+            out.add(norm(n.targets[0].elts[0]))
+    if isinstance(loop.target, ast.Tuple) and len(loop.target.elts) == 3:
+        out.add(norm(loop.target.elts[0]))
+    return out
 
 
 @rule('R23model', 'invert swaps source and target; the no-op model never deinverts; sort keys as documented')
